@@ -1,5 +1,8 @@
 SPECIFICATION Spec
-CONSTANT MaxParts = 3
-INVARIANTS TypeOK Shape ServesComplete LostInLastPart PatchAfterParts ClassPredictionSound
+CONSTANTS
+  MaxParts = 3
+  DevTornTailFailsGet = TRUE
+  DevTimescaleZeroExits = FALSE
+INVARIANTS TypeOK Shape ServesComplete LostInLastPart PatchAfterParts ClassPredictionSound DeviationsExplainAll
 INVARIANT EmitClasses
 CHECK_DEADLOCK FALSE
